@@ -3,6 +3,7 @@ package props
 import (
 	"fmt"
 	"go/token"
+	"go/types"
 	"sort"
 	"strings"
 
@@ -232,4 +233,62 @@ func c03ReaderBase(c *core.Ctx) {
 	rb, rn := readsBase(rng)
 	c.Decide(pb == rb, "R3.19", "segmented-reader-positions-one-base", c.P.Pos(rng.Pos()), fmt.Sprintf("Pos and Range both %s the first entry of the offset table", map[bool]string{true: "use", false: "ignore"}[pb]), fmt.Sprintf("WireReader.Pos %s the first entry of the reader's offset table and WireReader.Range %s it: the two agree only on a reader whose table starts at zero; on a sub-reader built by Delegate from a later segment the range cut out for a position that Pos reported is shifted (signature- and digest-covered ranges of a packet received in several segments)", map[bool]string{true: "is relative to", false: "ignores"}[pb], map[bool]string{true: "adds", false: "ignores"}[rb]))
 	c.Floor("R3.19", "uses of the offset table in WireReader.Pos and Range", pn+rn, 2)
+}
+
+// c03OneOctetThreshold — R3.20 "every length field is exact": a hand-written sizer or
+// writer of std/encoding that takes a shortcut for numbers that fit one header octet draws
+// the line where the number code draws it — at 252 (0xfc). 253, 254 and 255 are the markers
+// of the longer forms. In the functions EncodingLength / EncodeInto / Bytes of std/encoding
+// (and what they call inside the package), a comparison of a computed integer with a
+// constant K written `<= K` with K in 253..255, or `< K` with K in 254..256 (and the
+// mirrored `>` / `>=` forms), decides "one octet" for a number that needs three.
+func c03OneOctetThreshold(c *core.Ctx) {
+	p := c.P
+	n, nCmp := 0, 0
+	for _, fn := range p.FuncsIn(core.ModPath + "/std/encoding") {
+		if strings.HasSuffix(p.File(fn.Pos()), "_test.go") || fn.Signature.Recv() == nil {
+			continue
+		}
+		switch fn.Name() {
+		case "EncodingLength", "EncodeInto", "Bytes":
+		default:
+			continue
+		}
+		// the number tables themselves are R3.2's
+		if id := core.FuncID(fn); id.Recv == "TLNum" || id.Recv == "Nat" {
+			continue
+		}
+		n++
+		bad := ""
+		core.InstrsDeep(fn, func(in ssa.Instruction) {
+			iff, ok := in.(*ssa.If)
+			if !ok {
+				return
+			}
+			op, x, y, okC := core.Cmp(iff.Cond)
+			if !okC {
+				return
+			}
+			k, isK := core.ConstInt(y)
+			if !isK {
+				return
+			}
+			if b, isB := x.Type().Underlying().(*types.Basic); !isB || b.Info()&types.IsInteger == 0 || b.Kind() == types.Uint8 {
+				return // (a comparison of an octet with a marker is the reader's business)
+			}
+			nCmp++
+			switch op {
+			case token.LEQ, token.GTR:
+				if k >= 253 && k <= 255 {
+					bad = c.Pos(iff)
+				}
+			case token.LSS, token.GEQ:
+				if k >= 254 && k <= 256 {
+					bad = c.Pos(iff)
+				}
+			}
+		})
+		c.Decide(bad == "", "R3.20", "one-octet-threshold-is-252:"+core.FuncName(fn), p.Pos(fn.Pos()), "no comparison with a constant draws the one-octet line above 252", core.FuncName(fn)+" decides that a number fits one header octet by a comparison at "+bad+" that lets 253, 254 or 255 through: those are the markers of the longer forms — the size announced and the bytes written differ by two, the encoding is truncated or does not parse back")
+	}
+	c.Floor("R3.20", "hand-written EncodingLength / EncodeInto / Bytes methods of std/encoding", n, 4)
 }
